@@ -18,6 +18,13 @@ theorem iter_sig_done (v : Variant) (p : Bool) (s : Stage) (r : SigOut) (rb : Na
   | zero => rfl
   | succ n ih => simp [iter, sigStep, ih]
 
+theorem iter_start_done (v : Variant) (s : Stage) (r : StartOut) (rb : Nat) :
+    ∀ n, iter (startStep v) n (s, .done r rb) = (s, .done r rb) := by
+  intro n
+  induction n with
+  | zero => rfl
+  | succ n ih => simp [iter, startStep, ih]
+
 theorem iter_run_done (K : Nat) (s : Stage) (r : RunOut) (rb : Nat) :
     ∀ n, iter (runStep K) n (s, .done r rb) = (s, .done r rb) := by
   intro n
@@ -34,7 +41,7 @@ theorem runAtomic_running (K : Nat) (s : Stage) (hs : s.status = .running) :
                    consumed := s.consumed + 1 }
         else { s with queued := s.queued - 1, execs := s.execs + 1, status := .suspended, version := s.version + 1 }
       else { s with queued := s.queued - 1, execs := s.execs + 1, status := .finished, version := s.version + 1 } := by
-  obtain ⟨st, ver, buf, q, e, res, con, drp⟩ := s
+  obtain ⟨st, ver, buf, q, e, res, con, drp, pl⟩ := s
   simp only at hs
   subst hs
   by_cases h1 : e + 1 ≤ K <;> by_cases h2 : 0 < buf <;>
@@ -99,5 +106,63 @@ theorem quiesce_spec (K : Nat) : ∀ (b n : Nat) (s : Stage), s.status = .runnin
     · have : K ≤ s.execs + (b + 1) := by omega
       rw [if_neg h1, quiesce_idle _ _ _ (by simp; omega), if_pos this]
       simp; omega
+
+/-! ### equation lemmas: one micro-step on a program counter in constructor form (used instead of unfolding the step
+    functions, so that a condition `simp` cannot decide stays a small stuck term) -/
+
+theorem startStep_start (v : Variant) (s : Stage) :
+    startStep v (s, .start) = if s.status = .notStarted then (s, .loaded 0 0 (load s)) else (s, .done .ignored 0) := rfl
+theorem startStep_loaded (v : Variant) (s : Stage) (r rb : Nat) (o : Snap) :
+    startStep v (s, .loaded r rb o) =
+      if s.version = o.version ∧ s.status = .notStarted then
+        ({ s with status := .running, buffered := o.buffered, version := s.version + 1 },
+         .claimed 0 rb { o with status := .running, version := o.version + 1 } o.buffered)
+      else (s, .claimMissed r (rb + 1)) := rfl
+theorem startStep_claimMissed (v : Variant) (s : Stage) (r rb : Nat) :
+    startStep v (s, .claimMissed r rb) =
+      if s.status = .notStarted then
+        if claimRetryLimit ≤ r then (s, .done .requeued rb) else (s, .loaded (r + 1) rb (load s))
+      else (s, .done .duplicate rb) := rfl
+theorem startStep_claimed (v : Variant) (s : Stage) (a rb : Nat) (o : Snap) (c : Nat) :
+    startStep v (s, .claimed a rb o c) =
+      if s.version = o.version then
+        ({ s with status := o.status, buffered := o.buffered, version := s.version + 1, queued := s.queued + 1,
+                  planned := s.planned + 1 }, .done .started rb)
+      else (s, .planMissed a (rb + 1) o c) := rfl
+theorem startStep_planMissed (v : Variant) (s : Stage) (a rb : Nat) (o : Snap) (c : Nat) :
+    startStep v (s, .planMissed a rb o c) =
+      if s.status = .running then
+        if claimRetryLimit < a + 1 then (s, .done .raised rb)
+        else
+          (s, .claimed (a + 1) rb { o with buffered := (match v with
+              | .staleMailboxWins => if o.buffered = 0 then s.buffered else o.buffered
+              | _ => if s.buffered = c then o.buffered else s.buffered), version := s.version } s.buffered)
+      else (s, .done .takenOver rb) := rfl
+theorem startStep_done (v : Variant) (s : Stage) (r : StartOut) (rb : Nat) :
+    startStep v (s, .done r rb) = (s, .done r rb) := rfl
+
+
+theorem sigStep_start (v : Variant) (p : Bool) (s : Stage) (f rb : Nat) :
+    sigStep v p (s, .start f rb) = (s, .loaded f rb (load s)) := rfl
+theorem sigStep_loaded_cas (p : Bool) (s : Stage) (f rb : Nat) (o : Snap) :
+    sigStep .cas p (s, .loaded f rb o) =
+      if o.status = .suspended then
+        match SignalRace.cas s { guard := o.version, status := .running, buffered := o.buffered, push := 1, resumed := 1 } with
+        | some s' => (s', .done .delivered rb)
+        | none => (s, sigConflict f rb)
+      else if p then
+        match SignalRace.cas s { guard := o.version, status := o.status, buffered := o.buffered + 1 } with
+        | some s' => (s', .done .buffered rb)
+        | none => (s, sigConflict f rb)
+      else ({ s with dropped := s.dropped + 1 }, .done .dropped rb) := by
+  cases p <;> rfl
+theorem sigStep_loaded_stale (p : Bool) (s : Stage) (f rb : Nat) (o : Snap) :
+    sigStep .staleMailboxWins p (s, .loaded f rb o) = sigStep .cas p (s, .loaded f rb o) := by
+  cases p <;> rfl
+theorem sigStep_done (v : Variant) (p : Bool) (s : Stage) (r : SigOut) (rb : Nat) :
+    sigStep v p (s, .done r rb) = (s, .done r rb) := rfl
+
+theorem add_two_ne_self (n : Nat) : (n + 1 + 1 = n) = False := by simp; omega
+theorem self_ne_add_two (n : Nat) : (n = n + 1 + 1) = False := by simp; omega
 
 end Stab.SignalRace
